@@ -466,6 +466,9 @@ func ValidTopicName(mustUTF8 bool, p []byte) bool {
 		if mustUTF8 && ru == utf8.RuneError && size == 1 {
 			return false
 		}
+		if mustUTF8 && ru == 0 { // U+0000 [MQTT-1.5.4-2]
+			return false
+		}
 		if size == 1 {
 			//主题名不允许使用通配符
 			if p[0] == byte('+') || p[0] == byte('#') {
@@ -491,6 +494,9 @@ func ValidV5Topic(p []byte) bool {
 			for len(subp) > 0 {
 				ru, size := utf8.DecodeRune(subp)
 				if ru == utf8.RuneError && size == 1 {
+					return false
+				}
+				if ru == 0 { // U+0000 [MQTT-1.5.4-2]
 					return false
 				}
 				if size == 1 {
@@ -526,6 +532,9 @@ func ValidTopicFilter(mustUTF8 bool, p []byte) bool {
 	for len(p) > 0 {
 		ru, size := utf8.DecodeRune(p)
 		if mustUTF8 && ru == utf8.RuneError && size == 1 {
+			return false
+		}
+		if mustUTF8 && ru == 0 { // U+0000 [MQTT-1.5.4-2]
 			return false
 		}
 		plen := len(p)
